@@ -86,7 +86,10 @@ add("C04", "E1",
     "no dependency) on synthetic models and every shipped example/test kernel on shipped models: the "
     "reported critical path must lie in [L_exec, L_full] of an independent longest-chain DP over the "
     "implementation's own graph, be >= every single latency, and the marked lines must form a chain "
-    "of graph edges whose length equals the reported total.",
+    "of graph edges whose length equals the reported total. Also all kernels up to length 3 over "
+    "real instructions whose memory forms are composed from the register form on five shipped "
+    "models: an instruction with a load node of its own hands its result on after its execution "
+    "latency (load stage counted once).",
     "Trusted: mc/ref/dg.py longest_chain. The interval accepts both readings of the statement "
     "for the last instruction's load stage. Graph correctness itself belongs to C03.",
     "DESIGN.md §4 C04")
@@ -234,7 +237,8 @@ add("C16", "E2",
     "deviation bound 1-2 for 5-16 workers), for kernels with 4-5 cycles incl. latency ties and a root in "
     "the last line; in every schedule the result (keys, order, members, latencies) and the report must "
     "equal the single-process result. Replays are deterministic (replay divergence is a hard error). "
-    "Bound to the real system by 15 real-multiprocessing conformance runs and a supplementary "
+    "Bound to the real system by real-multiprocessing conformance runs (1-16 workers, also with the "
+    "process pinned to two CPUs) and a supplementary "
     "hash-seed sweep of CLI runs.",
     "Assumes a killed/running worker's list extension is atomic (manager executes one request at a "
     "time). Real OS scheduling is not owned; conformance runs are few and not called exhaustive.",
